@@ -91,5 +91,8 @@ FreeAnn == Ann(0, TRUE, "")
 \* the circuit's qubit indices in the documented cases (reindex_qubits domain)
 QIdxOf(gs, ann) == IF ann.fixedN > 0 THEN ann.qidx ELSE Used(gs)
 
+\* a list of new qubit indices is valid when its entries are pairwise distinct non-negative integers (otherwise the
+\* rewritten gates would be gates the constructor refuses)
+ValidNew(new) == Cardinality({new[x] : x \in 1..Len(new)}) = Len(new) /\ \A x \in 1..Len(new) : new[x] >= 0
 ReindexGates(gs, S, new) == Relabel(gs, TLCEval([q \in S |-> new[Rank(S, q) + 1]]))
 =============================================================================
